@@ -1,4 +1,4 @@
-import TsRsVerif.Lemmas.DeComplete
+import TsRsVerif.Lemmas.DeInst
 import Std.Data.String.ToInt
 /-! The completeness theorem proper: one block of mutually recursive theorems over the derivation of membership. -/
 namespace TsRs
@@ -51,14 +51,12 @@ end TsRs
 namespace TsRs
 open Ts Tree Builtin De
 
-def fieldTyOk (cfg : Cfg) (f : Field) : Bool := f.attr.skip || tyOk cfg.limit f.ty
-
-/-- the items the completeness theorem covers: monomorphic, tagged (no `untagged`), field types readable by the model, distinct
-variant keys -/
+/-- the items the completeness theorem covers: tagged (no `untagged`), field types readable by the model and mentioning only the
+item's own type parameters, distinct variant keys -/
 def itemDeOk (cfg : Cfg) (it : Item) : Bool :=
-  it.generics.isEmpty && !it.attr.untagged
-  && it.fields.all (fieldTyOk cfg)
-  && it.variants.all (fun v => !v.attr.untagged && v.fields.all (fieldTyOk cfg))
+  !it.attr.untagged
+  && it.fields.all (fieldTyOkP cfg (it.generics.map (·.name)))
+  && it.variants.all (fun v => !v.attr.untagged && v.fields.all (fieldTyOkP cfg (it.generics.map (·.name))))
   && decide (((it.variants.filter fun v => !v.attr.skip).map (Serde.variantKey cfg it.attr.renameAll)).Nodup)
 
 def deFragB (cfg : Cfg) (env : Env) : Bool := Tree.fragB cfg env && env.all (itemDeOk cfg)
@@ -448,7 +446,7 @@ theorem inv_obj (hN : ∀ id xs T, nameN id xs = some T → ∃ n, T = .ref n xs
 
 theorem inv_ref (hN : ∀ id xs T, nameN id xs = some T → ∃ n, T = .ref n xs) {t0 : RTy} {n : Str} {xs : List Ts}
     (h : nameTyB limit nameN t0 = some (.ref n xs)) (hnw : ∀ w u, t0 ≠ .wrap w u) (hok : tyOk limit t0 = true) :
-    ∃ id, t0 = .named id [] ∧ nameN id [] = some (.ref n xs) := by
+    ∃ id args targs, t0 = .named id args ∧ tyOkL limit args = true ∧ nameTyBL limit nameN args = some targs ∧ nameN id targs = some (.ref n xs) := by
   cases t0 with
   | prim r =>
     simp only [nameTyB, primTs] at h
@@ -461,10 +459,13 @@ theorem inv_ref (hN : ∀ id xs T, nameN id xs = some T → ∃ n, T = .ref n xs
   | wrap w u => exact absurd rfl (hnw w u)
   | param n => simp [tyOk] at hok
   | named id args =>
-    simp only [tyOk, List.isEmpty_iff] at hok
-    subst hok
-    simp only [nameTyB, nameTyBL, Option.bind_some] at h
-    exact ⟨id, rfl, h⟩
+    simp only [tyOk] at hok
+    simp only [nameTyB] at h
+    cases ha : nameTyBL limit nameN args with
+    | none => simp [ha] at h
+    | some targs =>
+      simp only [ha, Option.bind_some] at h
+      exact ⟨id, args, targs, rfl, hok, ha, h⟩
   | option u =>
     simp only [nameTyB] at h
     obtain ⟨x, _, e⟩ := nameTyB_map_some h
@@ -552,7 +553,11 @@ theorem nameN_ref (env : Env) : ∀ id xs T, nameN env id xs = some T → ∃ n,
   unfold nameN at h
   cases hf : env.find id with
   | none => simp [hf] at h
-  | some it => simp only [hf, Option.map_some, Option.some.injEq] at h; exact ⟨_, h.symm⟩
+  | some it =>
+    simp only [hf, Option.bind_some] at h
+    split at h
+    · simp only [Option.some.injEq] at h; exact ⟨_, h.symm⟩
+    · cases h
 
 /-! ### the Rust field lists behind a list of TypeScript properties -/
 
@@ -981,10 +986,17 @@ theorem int_named_obj (cfg : Cfg) (env : Env) (ra : Option Rule) (t n : Str) (fi
   · cases h1
   · cases h1
 
+/-- what the proof needs of an enum (an item of the program, or the instance of a generic one) -/
+def ItemF (cfg : Cfg) (it : Item) : Prop :=
+  it.attr.untagged = false ∧
+  (∀ v ∈ it.variants, v.attr.untagged = false ∧ v.fields.all (fieldTyOk cfg) = true) ∧
+  ((it.variants.filter fun v => !v.attr.skip).map (Serde.variantKey cfg it.attr.renameAll)).Nodup ∧
+  (it.isEnum = true → ∀ v ∈ it.variants, variantOk cfg it v = true)
+
 /-- what the fragment says about an item -/
 theorem frag_item (cfg : Cfg) (env : Env) (hF : deFragB cfg env = true) (it : Item) (hmem : it ∈ env) :
-    it.generics = [] ∧ it.attr.untagged = false ∧ it.fields.all (fieldTyOk cfg) = true ∧
-    (∀ v ∈ it.variants, v.attr.untagged = false ∧ v.fields.all (fieldTyOk cfg) = true) ∧
+    it.attr.untagged = false ∧ it.fields.all (fieldTyOkP cfg (it.generics.map (·.name))) = true ∧
+    (∀ v ∈ it.variants, v.attr.untagged = false ∧ v.fields.all (fieldTyOkP cfg (it.generics.map (·.name))) = true) ∧
     ((it.variants.filter fun v => !v.attr.skip).map (Serde.variantKey cfg it.attr.renameAll)).Nodup ∧
     (it.isEnum = true → ∀ v ∈ it.variants, variantOk cfg it v = true) ∧
     (it.isEnum = false → bodyOk cfg it.attr.renameAll it.attr.optionalFields it.attr.tag it.shape it.fields = true ∧
@@ -995,12 +1007,12 @@ theorem frag_item (cfg : Cfg) (env : Env) (hF : deFragB cfg env = true) (it : It
   simp only [fragB, Bool.and_eq_true, List.all_eq_true, decide_eq_true_eq] at hfrag
   obtain ⟨⟨⟨hitems, _⟩, hts⟩, hbodies⟩ := hfrag
   have hde' := hde it hmem
-  simp only [itemDeOk, Bool.and_eq_true, List.isEmpty_iff, Bool.not_eq_true', List.all_eq_true, decide_eq_true_eq] at hde'
-  obtain ⟨⟨⟨⟨hg, hu⟩, hf⟩, hv⟩, hk⟩ := hde'
+  simp only [itemDeOk, Bool.and_eq_true, Bool.not_eq_true', List.all_eq_true, decide_eq_true_eq] at hde'
+  obtain ⟨⟨⟨hu, hf⟩, hv⟩, hk⟩ := hde'
   have hok := hitems it hmem
   simp only [itemOk, Bool.and_eq_true] at hok
   obtain ⟨_, hrest⟩ := hok
-  refine ⟨hg, hu, by simpa [List.all_eq_true] using hf, ?_, hk, ?_, ?_, hts, Option.isSome_iff_exists.mp (hbodies it hmem)⟩
+  refine ⟨hu, by simpa [List.all_eq_true] using hf, ?_, hk, ?_, ?_, hts, Option.isSome_iff_exists.mp (hbodies it hmem)⟩
   · intro v hvm
     have := hv v hvm
     exact ⟨this.1, by simpa [List.all_eq_true] using this.2⟩
@@ -1013,6 +1025,59 @@ theorem frag_item (cfg : Cfg) (env : Env) (hF : deFragB cfg env = true) (it : It
     intro hs fld hfl
     have := hrest.2
     simpa [hs, hfl] using this
+
+theorem nameTyBL_length {limit : Nat} {nameN : Str → List Ts → Option Ts} : ∀ {args : List RTy} {targs : List Ts},
+    nameTyBL limit nameN args = some targs → targs.length = args.length
+  | [], targs, h => by simp only [nameTyBL, Option.some.injEq] at h; subst h; rfl
+  | a :: as, targs, h => by
+    simp only [nameTyBL, bind, Option.bind] at h
+    cases ha : nameTyB limit nameN a with
+    | none => simp [ha] at h
+    | some x =>
+      cases hr : nameTyBL limit nameN as with
+      | none => simp [ha, hr] at h
+      | some xs =>
+        simp only [ha, hr, pure, Option.some.injEq] at h
+        subst h
+        simp [nameTyBL_length hr]
+
+/-- the instance of an item of the fragment (closed, readable arguments, one per parameter) has what the proof needs -/
+theorem frag_inst (cfg : Cfg) (it : Item) (args : List RTy) (hlen : (it.generics.map (·.name)).length ≤ args.length)
+    (hargs : tyOkL cfg.limit args = true)
+    (hiu : it.attr.untagged = false) (hfty : it.fields.all (fieldTyOkP cfg (it.generics.map (·.name))) = true)
+    (hvs : ∀ v ∈ it.variants, v.attr.untagged = false ∧ v.fields.all (fieldTyOkP cfg (it.generics.map (·.name))) = true)
+    (hnd : ((it.variants.filter fun v => !v.attr.skip).map (Serde.variantKey cfg it.attr.renameAll)).Nodup)
+    (hvok : it.isEnum = true → ∀ v ∈ it.variants, variantOk cfg it v = true)
+    (hst : it.isEnum = false → bodyOk cfg it.attr.renameAll it.attr.optionalFields it.attr.tag it.shape it.fields = true ∧
+      (it.shape = .tuple → ∀ fld, it.fields = [fld] → fld.attr.skip = false)) :
+    ItemF cfg (Item.inst ((it.generics.map (·.name)).zip args) it) ∧
+    (Item.inst ((it.generics.map (·.name)).zip args) it).fields.all (fieldTyOk cfg) = true ∧
+    (it.isEnum = false → bodyOk cfg it.attr.renameAll it.attr.optionalFields it.attr.tag it.shape
+        (Item.inst ((it.generics.map (·.name)).zip args) it).fields = true ∧
+      (it.shape = .tuple → ∀ fld, (Item.inst ((it.generics.map (·.name)).zip args) it).fields = [fld] → fld.attr.skip = false)) := by
+  refine ⟨⟨hiu, ?_, ?_, ?_⟩, fieldsTyOk_inst cfg _ args hlen hargs it.fields hfty, ?_⟩
+  · intro v hv
+    simp only [Item.inst_variants, List.mem_map] at hv
+    obtain ⟨v0, hv0, rfl⟩ := hv
+    exact ⟨(hvs v0 hv0).1, fieldsTyOk_inst cfg _ args hlen hargs v0.fields (hvs v0 hv0).2⟩
+  · have := filter_inst ((it.generics.map (·.name)).zip args) (fun a => !a.skip) it.variants
+    simp only [Item.inst_variants, Item.inst_attr]
+    rw [this, List.map_map]
+    exact hnd
+  · intro hen v hv
+    simp only [Item.inst_variants, List.mem_map] at hv
+    obtain ⟨v0, hv0, rfl⟩ := hv
+    exact variantOk_inst _ cfg it v0 (hvok hen v0 hv0)
+  · intro hen
+    obtain ⟨hb, hsk⟩ := hst hen
+    refine ⟨bodyOk_inst _ cfg _ _ _ _ _ hb, ?_⟩
+    intro hs fld hfl
+    simp only [Item.inst_fields] at hfl
+    match hf : it.fields, hfl with
+    | [f0], hfl =>
+      simp only [List.map_cons, List.map_nil, List.cons.injEq, and_true] at hfl
+      subst hfl
+      exact hsk hs f0 hf
 
 /-- a value of the literal type is that string -/
 theorem member_lit_eq {D : Decls} {T : Ts} {v : JVal} {s : Str} (m : Member D T v) (h : T = .lit s) : v = .str s := by
@@ -1131,76 +1196,99 @@ theorem gTy (cfg : Cfg) (env : Env) (hF : deFragB cfg env = true) : ∀ {T : Ts}
     refine Good.congr hg (fun f => ?_)
     rw [he f]
     simp only [accB, hl1, hl2]
-  | _, j, .ref (n := n) (args := args) (ps := ps) (body := body) hl m', t, hT, hok, hw => by
+  | _, j, .ref (n := n) (args := xs) (ps := ps) (body := body) hl m', t, hT, hok, hw => by
     obtain ⟨t0, hT0, hok0, hnw, he⟩ := prep cfg env j t _ hT hok
-    obtain ⟨id, rfl, hN⟩ := inv_ref (nameN_ref env) hT0 hnw hok0
+    obtain ⟨id, args, targs, ht0, hokargs, hargs, hN⟩ := inv_ref (nameN_ref env) hT0 hnw hok0
     unfold nameN at hN
     cases hfind : env.find id with
     | none => simp [hfind] at hN
     | some it =>
-      simp only [hfind, Option.map_some, Option.some.injEq, Ts.ref.injEq] at hN
-      obtain ⟨hn, hargs⟩ := hN
+      simp only [hfind, Option.bind_some] at hN
+      have hN' : targs.length = it.generics.length ∧ Ts.ref (Derive.tsName it) targs = Ts.ref n xs := by
+        split at hN
+        · rename_i hlen; exact ⟨hlen, by simpa using hN⟩
+        · cases hN
+      obtain ⟨hlen, hN⟩ := hN'
+      simp only [Ts.ref.injEq] at hN
+      obtain ⟨hn, hxs⟩ := hN
       have hmem : it ∈ env := List.mem_of_find?_eq_some hfind
-      obtain ⟨hg, hiu, hfty, hvs, hnd, hvok, hst, hts, b, hb⟩ := frag_item cfg env hF it hmem
+      obtain ⟨hiu, hfty, hvs, hnd, hvok, hst, hts, b, hb⟩ := frag_item cfg env hF it hmem
       have hlook := lookup_decl_in cfg env env it b hts hmem hb
-      rw [hn, hg] at hlook
-      have hlook' : lookupDecl (declsOf cfg env) n = some ([], b) := hlook
+      rw [hn] at hlook
+      have hlook' : lookupDecl (declsOf cfg env) n = some (it.generics.map (·.name), b) := hlook
       rw [hl] at hlook'
       simp only [Option.some.injEq, Prod.mk.injEq] at hlook'
       obtain ⟨hps, hbody⟩ := hlook'
-      have hT' : subst (ps.zip args) body = b := by rw [hps, hbody]; simp [subst_nil]
+      have hlen' : (it.generics.map (·.name)).length ≤ args.length := by
+        have := nameTyBL_length hargs
+        simp only [List.length_map]; omega
+      obtain ⟨hI, hfty', hst'⟩ := frag_inst cfg it args hlen' hokargs hiu hfty hvs hnd hvok hst
+      have hb' := itemBody_inst cfg env (it.generics.map (·.name)) args targs hargs it b hb
+        (fun hen hs => by have := (hst hen).1; rw [hs] at this; exact bodyOk_named this)
+        (fun hen v hv hs => (variantOk_facts cfg it v (hvok hen v hv) (hvs v hv).1 hiu).2.2.1 hs)
+      have hT' : subst (ps.zip xs) body = subst ((it.generics.map (·.name)).zip targs) b := by rw [hps, hbody, hxs]
       refine Good.congr ?_ he
-      -- accItem at fuel f+1
-      have hitem : ∀ f, accB (accNf cfg env f) (.named id []) j =
+      rw [ht0]
+      -- accItem at fuel f+1: reading the value as the instance
+      have hitem : ∀ f, accB (accNf cfg env f) (.named id args) j =
           (match f with
            | 0 => 2
-           | f' + 1 => if it.isEnum then accEnum cfg env f' it [] j
-                       else accBody cfg env f' [] it.attr.renameAll it.attr.tag it.shape it.fields j) := by
+           | f' + 1 => if it.isEnum then accEnum cfg env f' (Item.inst ((it.generics.map (·.name)).zip args) it) [] j
+                       else accBody cfg env f' [] it.attr.renameAll it.attr.tag it.shape
+                         (Item.inst ((it.generics.map (·.name)).zip args) it).fields j) := by
         intro f
         cases f with
         | zero => simp [accB, accNf, accItem]
-        | succ f' => simp [accB, accNf, accItem, hfind, hg]
+        | succ f' =>
+          simp only [accB, accNf, accItem, hfind, zip_map_names, Item.inst_fields]
+          rw [accEnum_inst cfg env _ it j f', accBody_inst cfg env _ it.attr.renameAll it.attr.tag it.shape it.fields j f']
+      have e1 : (Item.inst ((it.generics.map (·.name)).zip args) it).isEnum = it.isEnum := rfl
+      have e2 : (Item.inst ((it.generics.map (·.name)).zip args) it).attr = it.attr := rfl
+      have e3 : (Item.inst ((it.generics.map (·.name)).zip args) it).shape = it.shape := rfl
+      have e4 : Derive.tsName (Item.inst ((it.generics.map (·.name)).zip args) it) = Derive.tsName it := rfl
+      generalize Item.inst ((it.generics.map (·.name)).zip args) it = it' at hI hfty' hst' hb' hitem e1 e2 e3 e4
       refine Good.congr (Good.shift ?_) hitem
       by_cases hen : it.isEnum = true
       · simp only [hen, if_true]
-        simp only [itemBody, hen, if_true] at hb
-        by_cases hemp : it.variants.isEmpty = true
-        · simp only [hemp, if_true, Option.some.injEq] at hb
-          rw [← hb] at hT'
+        simp only [itemBody, e1, hen, if_true] at hb'
+        by_cases hemp : it'.variants.isEmpty = true
+        · simp only [hemp, if_true, Option.some.injEq] at hb'
+          rw [← hb'] at hT'
           exact absurd m' (by rw [hT']; intro m; cases m)
-        · simp only [hemp, Bool.false_eq_true, if_false, bind, Option.bind] at hb
-          cases harms : variantsTs cfg env it it.variants with
-          | none => simp [harms] at hb
+        · simp only [hemp, Bool.false_eq_true, if_false, bind, Option.bind] at hb'
+          cases harms : variantsTs cfg env it' it'.variants with
+          | none => simp [harms] at hb'
           | some arms =>
-            simp only [harms] at hb
+            simp only [harms] at hb'
             by_cases hae : arms.isEmpty = true
-            · simp only [hae, if_true, Option.some.injEq] at hb
-              rw [← hb] at hT'
+            · simp only [hae, if_true, Option.some.injEq] at hb'
+              rw [← hb'] at hT'
               exact absurd m' (by rw [hT']; intro m; cases m)
-            · simp only [hae, Bool.false_eq_true, if_false, pure, Option.some.injEq] at hb
-              exact gEnum cfg env hF m' it arms (by rw [hT', hb]) harms hmem hen hw
+            · simp only [hae, Bool.false_eq_true, if_false, pure, Option.some.injEq] at hb'
+              exact gEnum cfg env hF m' it' arms (by rw [hT', hb']) harms hI (by rw [e1]; exact hen) hw
       · have hen' : it.isEnum = false := by simpa using hen
         simp only [hen', Bool.false_eq_true, if_false]
-        obtain ⟨hbok, hnsk⟩ := hst hen'
-        simp only [itemBody, hen', Bool.false_eq_true, if_false] at hb
-        by_cases hnt : it.shape = .tuple ∧ it.fields.length = 1
-        · obtain ⟨hs, hlen⟩ := hnt
-          match hfs : it.fields, hlen with
+        obtain ⟨hbok, hnsk⟩ := hst' hen'
+        simp only [itemBody, e1, hen', Bool.false_eq_true, if_false, e2, e3, e4] at hb'
+        by_cases hnt : it.shape = .tuple ∧ it'.fields.length = 1
+        · obtain ⟨hs, hlen1⟩ := hnt
+          match hfs : it'.fields, hlen1 with
           | [fld], _ =>
             have hsk := hnsk hs fld hfs
-            rw [hs, hfs] at hb
-            have hC : tyTs cfg env fld.ty = some b := by simpa [structBody, hsk] using hb
+            rw [hs, hfs] at hb'
+            have hC : tyTs cfg env fld.ty = some (subst ((it.generics.map (·.name)).zip targs) b) := by simpa [structBody, hsk] using hb'
             have hty : tyOk cfg.limit fld.ty = true := by
-              rw [hfs] at hfty
-              simpa [fieldTyOk, hsk] using hfty
+              rw [hfs] at hfty'
+              simpa [fieldTyOk, hsk] using hfty'
             have g := gTy cfg env hF m' fld.ty (by rw [hT']; exact hC) hty hw
             refine Good.congr (Good.shift (accTy_good cfg env fld.ty j g)) (fun f => ?_)
             cases f with
             | zero => simp [accBody]
-            | succ f' => simp [accBody, hs, hfs, rsubst_nil]
+            | succ f' => simp [accBody, hs, rsubst_nil]
         · exact gStruct cfg env hF m' it.attr.renameAll it.attr.renameAll it.attr.optionalFields
-            (it.attr.tag.map fun t => (t, Derive.tsName it)) it.attr.tag it.shape it.fields (by rw [hT']; exact hb) (fun _ => rfl)
-            (fun hs hl => hnt ⟨hs, hl⟩) (fun hs => by rw [hs] at hbok; exact bodyOk_named hbok) hfty hw
+            (it.attr.tag.map fun t => (t, Derive.tsName it)) it.attr.tag it.shape it'.fields
+            (by rw [hT']; exact hb') (fun _ => rfl)
+            (fun hs hl => hnt ⟨hs, hl⟩) (fun hs => by rw [hs] at hbok; exact bodyOk_named hbok) hfty' hw
 /-- an object type with one required property -/
 theorem gObj1 (cfg : Cfg) (env : Env) (hF : deFragB cfg env = true) : ∀ {T : Ts} {j : JVal}, Member (declsOf cfg env) T j →
     ∀ (K : TsKey) (A : Ts) (a : RTy), T = .obj [(K, A)] → K.optional = false → tyTs cfg env a = some A → tyOk cfg.limit a = true → wfJ j = true →
@@ -1373,10 +1461,10 @@ theorem gTagged (cfg : Cfg) (env : Env) (hF : deFragB cfg env = true) : ∀ {fsT
   | _, _, .nil, _, _, _, _, _, _, he, _, _, _, _, _ => by cases he
 /-- one arm of the union of an enum -/
 theorem gVariant (cfg : Cfg) (env : Env) (hF : deFragB cfg env = true) : ∀ {A : Ts} {j : JVal}, Member (declsOf cfg env) A j →
-    ∀ (it : Item) (var : Variant), variantTs cfg env it var = some A → it ∈ env → var ∈ it.variants → var.attr.skip = false → it.isEnum = true →
+    ∀ (it : Item) (var : Variant), variantTs cfg env it var = some A → ItemF cfg it → var ∈ it.variants → var.attr.skip = false → it.isEnum = true →
       wfJ j = true → Good (fun f => accEnum cfg env f it [] j)
   | _, _, .lit s, it, var, hA, hmem, hvm, hsk, hen, _ => by
-    obtain ⟨_, hiu, _, hvs, hnd, hvok, _, _, _⟩ := frag_item cfg env hF it hmem
+    obtain ⟨hiu, hvs, hnd, hvok⟩ := id hmem
     have hvu := fun v hv => (hvs v hv).1
     obtain ⟨hname, _, _, _⟩ := variantOk_facts cfg it var (hvok hen var hvm) (hvu var hvm) hiu
     rcases variantTs_cases cfg env it var _ hA (hvu var hvm) hiu with ⟨htag, hu, h⟩ | ⟨_, _, C, _, h⟩ | ⟨t, c, _, _, _, h⟩ | ⟨t, c, _, _, _, C, _, h⟩ | ⟨t, _, _, _, h⟩ | ⟨t, _, _, _, hs, hB⟩
@@ -1394,7 +1482,7 @@ theorem gVariant (cfg : Cfg) (env : Env) (hF : deFragB cfg env = true) : ∀ {A 
       obtain ⟨fs, _, h⟩ := int_named_obj cfg env _ t _ _ _ hB
       cases h
   | _, _, .obj (kvs := kvs) (.present (k := k1) (t := T1) (fs := rest) (v := v1) hl1 m1 ms) hk, it, var, hA, hmem, hvm, hsk, hen, hw => by
-    obtain ⟨_, hiu, _, hvs, hnd, hvok, _, _, _⟩ := frag_item cfg env hF it hmem
+    obtain ⟨hiu, hvs, hnd, hvok⟩ := id hmem
     have hvu := fun v hv => (hvs v hv).1
     have hvty := (hvs var hvm).2
     obtain ⟨hname, hra, hfok, htc⟩ := variantOk_facts cfg it var (hvok hen var hvm) (hvu var hvm) hiu
@@ -1487,7 +1575,7 @@ theorem gVariant (cfg : Cfg) (env : Env) (hF : deFragB cfg env = true) : ∀ {A 
         rw [accEnum_int cfg env it var hiu hvu hnd hvm hsk f' t htag hcon kvs hl (Or.inr hs), ← hra hs]
         simp [hu]
   | _, _, .obj (.absent (k := k1) _ ho _) _, it, var, hA, hmem, hvm, _, _, _ => by
-    obtain ⟨_, hiu, _, hvs, _, _, _, _, _⟩ := frag_item cfg env hF it hmem
+    obtain ⟨hiu, hvs, _, _⟩ := id hmem
     rcases variantTs_cases cfg env it var _ hA (hvs var hvm).1 hiu with ⟨_, _, h⟩ | ⟨_, _, C, _, h⟩ | ⟨t, c, _, _, _, h⟩ | ⟨t, c, _, _, _, C, _, h⟩ | ⟨t, _, _, _, h⟩ | ⟨t, _, _, _, hs, hB⟩
     · cases h
     · simp only [Ts.obj.injEq, List.cons.injEq, Prod.mk.injEq] at h; rw [h.1.1] at ho; simp at ho
@@ -1498,7 +1586,7 @@ theorem gVariant (cfg : Cfg) (env : Env) (hF : deFragB cfg env = true) : ∀ {A 
       obtain ⟨fs, _, h⟩ := int_named_obj cfg env _ t _ _ _ hB
       simp only [Ts.obj.injEq, List.cons.injEq, Prod.mk.injEq] at h; rw [h.1.1] at ho; simp at ho
   | _, _, .obj .nil _, it, var, hA, hmem, hvm, _, _, _ => by
-    obtain ⟨_, hiu, _, hvs, _, _, _, _, _⟩ := frag_item cfg env hF it hmem
+    obtain ⟨hiu, hvs, _, _⟩ := id hmem
     rcases variantTs_cases cfg env it var _ hA (hvs var hvm).1 hiu with ⟨_, _, h⟩ | ⟨_, _, C, _, h⟩ | ⟨t, c, _, _, _, h⟩ | ⟨t, c, _, _, _, C, _, h⟩ | ⟨t, _, _, _, h⟩ | ⟨t, _, _, _, hs, hB⟩
     · cases h
     · simp at h
@@ -1509,7 +1597,7 @@ theorem gVariant (cfg : Cfg) (env : Env) (hF : deFragB cfg env = true) : ∀ {A 
       obtain ⟨fs, _, h⟩ := int_named_obj cfg env _ t _ _ _ hB
       simp at h
   | _, _, .numberInt _, it, var, hA, hmem, hvm, _, _, _ => by
-    obtain ⟨_, hiu, _, hvs, _, _, _, _, _⟩ := frag_item cfg env hF it hmem
+    obtain ⟨hiu, hvs, _, _⟩ := id hmem
     rcases variantTs_cases cfg env it var _ hA (hvs var hvm).1 hiu with ⟨_, _, h⟩ | ⟨_, _, C, _, h⟩ | ⟨t, c, _, _, _, h⟩ | ⟨t, c, _, _, _, C, _, h⟩ | ⟨t, _, _, _, h⟩ | ⟨t, _, _, _, hs, hB⟩
     · cases h
     · cases h
@@ -1520,7 +1608,7 @@ theorem gVariant (cfg : Cfg) (env : Env) (hF : deFragB cfg env = true) : ∀ {A 
       obtain ⟨fs, _, h⟩ := int_named_obj cfg env _ t _ _ _ hB
       cases h
   | _, _, .numberFloat _, it, var, hA, hmem, hvm, _, _, _ => by
-    obtain ⟨_, hiu, _, hvs, _, _, _, _, _⟩ := frag_item cfg env hF it hmem
+    obtain ⟨hiu, hvs, _, _⟩ := id hmem
     rcases variantTs_cases cfg env it var _ hA (hvs var hvm).1 hiu with ⟨_, _, h⟩ | ⟨_, _, C, _, h⟩ | ⟨t, c, _, _, _, h⟩ | ⟨t, c, _, _, _, C, _, h⟩ | ⟨t, _, _, _, h⟩ | ⟨t, _, _, _, hs, hB⟩
     · cases h
     · cases h
@@ -1531,7 +1619,7 @@ theorem gVariant (cfg : Cfg) (env : Env) (hF : deFragB cfg env = true) : ∀ {A 
       obtain ⟨fs, _, h⟩ := int_named_obj cfg env _ t _ _ _ hB
       cases h
   | _, _, .bigint _, it, var, hA, hmem, hvm, _, _, _ => by
-    obtain ⟨_, hiu, _, hvs, _, _, _, _, _⟩ := frag_item cfg env hF it hmem
+    obtain ⟨hiu, hvs, _, _⟩ := id hmem
     rcases variantTs_cases cfg env it var _ hA (hvs var hvm).1 hiu with ⟨_, _, h⟩ | ⟨_, _, C, _, h⟩ | ⟨t, c, _, _, _, h⟩ | ⟨t, c, _, _, _, C, _, h⟩ | ⟨t, _, _, _, h⟩ | ⟨t, _, _, _, hs, hB⟩
     · cases h
     · cases h
@@ -1542,7 +1630,7 @@ theorem gVariant (cfg : Cfg) (env : Env) (hF : deFragB cfg env = true) : ∀ {A 
       obtain ⟨fs, _, h⟩ := int_named_obj cfg env _ t _ _ _ hB
       cases h
   | _, _, .string _, it, var, hA, hmem, hvm, _, _, _ => by
-    obtain ⟨_, hiu, _, hvs, _, _, _, _, _⟩ := frag_item cfg env hF it hmem
+    obtain ⟨hiu, hvs, _, _⟩ := id hmem
     rcases variantTs_cases cfg env it var _ hA (hvs var hvm).1 hiu with ⟨_, _, h⟩ | ⟨_, _, C, _, h⟩ | ⟨t, c, _, _, _, h⟩ | ⟨t, c, _, _, _, C, _, h⟩ | ⟨t, _, _, _, h⟩ | ⟨t, _, _, _, hs, hB⟩
     · cases h
     · cases h
@@ -1553,7 +1641,7 @@ theorem gVariant (cfg : Cfg) (env : Env) (hF : deFragB cfg env = true) : ∀ {A 
       obtain ⟨fs, _, h⟩ := int_named_obj cfg env _ t _ _ _ hB
       cases h
   | _, _, .boolean _, it, var, hA, hmem, hvm, _, _, _ => by
-    obtain ⟨_, hiu, _, hvs, _, _, _, _, _⟩ := frag_item cfg env hF it hmem
+    obtain ⟨hiu, hvs, _, _⟩ := id hmem
     rcases variantTs_cases cfg env it var _ hA (hvs var hvm).1 hiu with ⟨_, _, h⟩ | ⟨_, _, C, _, h⟩ | ⟨t, c, _, _, _, h⟩ | ⟨t, c, _, _, _, C, _, h⟩ | ⟨t, _, _, _, h⟩ | ⟨t, _, _, _, hs, hB⟩
     · cases h
     · cases h
@@ -1564,7 +1652,7 @@ theorem gVariant (cfg : Cfg) (env : Env) (hF : deFragB cfg env = true) : ∀ {A 
       obtain ⟨fs, _, h⟩ := int_named_obj cfg env _ t _ _ _ hB
       cases h
   | _, _, .null, it, var, hA, hmem, hvm, _, _, _ => by
-    obtain ⟨_, hiu, _, hvs, _, _, _, _, _⟩ := frag_item cfg env hF it hmem
+    obtain ⟨hiu, hvs, _, _⟩ := id hmem
     rcases variantTs_cases cfg env it var _ hA (hvs var hvm).1 hiu with ⟨_, _, h⟩ | ⟨_, _, C, _, h⟩ | ⟨t, c, _, _, _, h⟩ | ⟨t, c, _, _, _, C, _, h⟩ | ⟨t, _, _, _, h⟩ | ⟨t, _, _, _, hs, hB⟩
     · cases h
     · cases h
@@ -1575,7 +1663,7 @@ theorem gVariant (cfg : Cfg) (env : Env) (hF : deFragB cfg env = true) : ∀ {A 
       obtain ⟨fs, _, h⟩ := int_named_obj cfg env _ t _ _ _ hB
       cases h
   | _, _, .ref _ _, it, var, hA, hmem, hvm, _, _, _ => by
-    obtain ⟨_, hiu, _, hvs, _, _, _, _, _⟩ := frag_item cfg env hF it hmem
+    obtain ⟨hiu, hvs, _, _⟩ := id hmem
     rcases variantTs_cases cfg env it var _ hA (hvs var hvm).1 hiu with ⟨_, _, h⟩ | ⟨_, _, C, _, h⟩ | ⟨t, c, _, _, _, h⟩ | ⟨t, c, _, _, _, C, _, h⟩ | ⟨t, _, _, _, h⟩ | ⟨t, _, _, _, hs, hB⟩
     · cases h
     · cases h
@@ -1586,7 +1674,7 @@ theorem gVariant (cfg : Cfg) (env : Env) (hF : deFragB cfg env = true) : ∀ {A 
       obtain ⟨fs, _, h⟩ := int_named_obj cfg env _ t _ _ _ hB
       cases h
   | _, _, .array _, it, var, hA, hmem, hvm, _, _, _ => by
-    obtain ⟨_, hiu, _, hvs, _, _, _, _, _⟩ := frag_item cfg env hF it hmem
+    obtain ⟨hiu, hvs, _, _⟩ := id hmem
     rcases variantTs_cases cfg env it var _ hA (hvs var hvm).1 hiu with ⟨_, _, h⟩ | ⟨_, _, C, _, h⟩ | ⟨t, c, _, _, _, h⟩ | ⟨t, c, _, _, _, C, _, h⟩ | ⟨t, _, _, _, h⟩ | ⟨t, _, _, _, hs, hB⟩
     · cases h
     · cases h
@@ -1597,7 +1685,7 @@ theorem gVariant (cfg : Cfg) (env : Env) (hF : deFragB cfg env = true) : ∀ {A 
       obtain ⟨fs, _, h⟩ := int_named_obj cfg env _ t _ _ _ hB
       cases h
   | _, _, .tuple _, it, var, hA, hmem, hvm, _, _, _ => by
-    obtain ⟨_, hiu, _, hvs, _, _, _, _, _⟩ := frag_item cfg env hF it hmem
+    obtain ⟨hiu, hvs, _, _⟩ := id hmem
     rcases variantTs_cases cfg env it var _ hA (hvs var hvm).1 hiu with ⟨_, _, h⟩ | ⟨_, _, C, _, h⟩ | ⟨t, c, _, _, _, h⟩ | ⟨t, c, _, _, _, C, _, h⟩ | ⟨t, _, _, _, h⟩ | ⟨t, _, _, _, hs, hB⟩
     · cases h
     · cases h
@@ -1608,7 +1696,7 @@ theorem gVariant (cfg : Cfg) (env : Env) (hF : deFragB cfg env = true) : ∀ {A 
       obtain ⟨fs, _, h⟩ := int_named_obj cfg env _ t _ _ _ hB
       cases h
   | _, _, .neverArray, it, var, hA, hmem, hvm, _, _, _ => by
-    obtain ⟨_, hiu, _, hvs, _, _, _, _, _⟩ := frag_item cfg env hF it hmem
+    obtain ⟨hiu, hvs, _, _⟩ := id hmem
     rcases variantTs_cases cfg env it var _ hA (hvs var hvm).1 hiu with ⟨_, _, h⟩ | ⟨_, _, C, _, h⟩ | ⟨t, c, _, _, _, h⟩ | ⟨t, c, _, _, _, C, _, h⟩ | ⟨t, _, _, _, h⟩ | ⟨t, _, _, _, hs, hB⟩
     · cases h
     · cases h
@@ -1619,7 +1707,7 @@ theorem gVariant (cfg : Cfg) (env : Env) (hF : deFragB cfg env = true) : ∀ {A 
       obtain ⟨fs, _, h⟩ := int_named_obj cfg env _ t _ _ _ hB
       cases h
   | _, _, .emptyRecord, it, var, hA, hmem, hvm, _, _, _ => by
-    obtain ⟨_, hiu, _, hvs, _, _, _, _, _⟩ := frag_item cfg env hF it hmem
+    obtain ⟨hiu, hvs, _, _⟩ := id hmem
     rcases variantTs_cases cfg env it var _ hA (hvs var hvm).1 hiu with ⟨_, _, h⟩ | ⟨_, _, C, _, h⟩ | ⟨t, c, _, _, _, h⟩ | ⟨t, c, _, _, _, C, _, h⟩ | ⟨t, _, _, _, h⟩ | ⟨t, _, _, _, hs, hB⟩
     · cases h
     · cases h
@@ -1630,7 +1718,7 @@ theorem gVariant (cfg : Cfg) (env : Env) (hF : deFragB cfg env = true) : ∀ {A 
       obtain ⟨fs, _, h⟩ := int_named_obj cfg env _ t _ _ _ hB
       cases h
   | _, _, .mapped _, it, var, hA, hmem, hvm, _, _, _ => by
-    obtain ⟨_, hiu, _, hvs, _, _, _, _, _⟩ := frag_item cfg env hF it hmem
+    obtain ⟨hiu, hvs, _, _⟩ := id hmem
     rcases variantTs_cases cfg env it var _ hA (hvs var hvm).1 hiu with ⟨_, _, h⟩ | ⟨_, _, C, _, h⟩ | ⟨t, c, _, _, _, h⟩ | ⟨t, c, _, _, _, C, _, h⟩ | ⟨t, _, _, _, h⟩ | ⟨t, _, _, _, hs, hB⟩
     · cases h
     · cases h
@@ -1641,7 +1729,7 @@ theorem gVariant (cfg : Cfg) (env : Env) (hF : deFragB cfg env = true) : ∀ {A 
       obtain ⟨fs, _, h⟩ := int_named_obj cfg env _ t _ _ _ hB
       cases h
   | _, _, .union _ _, it, var, hA, hmem, hvm, _, _, _ => by
-    obtain ⟨_, hiu, _, hvs, _, _, _, _, _⟩ := frag_item cfg env hF it hmem
+    obtain ⟨hiu, hvs, _, _⟩ := id hmem
     rcases variantTs_cases cfg env it var _ hA (hvs var hvm).1 hiu with ⟨_, _, h⟩ | ⟨_, _, C, _, h⟩ | ⟨t, c, _, _, _, h⟩ | ⟨t, c, _, _, _, C, _, h⟩ | ⟨t, _, _, _, h⟩ | ⟨t, _, _, _, hs, hB⟩
     · cases h
     · cases h
@@ -1652,7 +1740,7 @@ theorem gVariant (cfg : Cfg) (env : Env) (hF : deFragB cfg env = true) : ∀ {A 
       obtain ⟨fs, _, h⟩ := int_named_obj cfg env _ t _ _ _ hB
       cases h
   | _, _, .interNil, it, var, hA, hmem, hvm, _, _, _ => by
-    obtain ⟨_, hiu, _, hvs, _, _, _, _, _⟩ := frag_item cfg env hF it hmem
+    obtain ⟨hiu, hvs, _, _⟩ := id hmem
     rcases variantTs_cases cfg env it var _ hA (hvs var hvm).1 hiu with ⟨_, _, h⟩ | ⟨_, _, C, _, h⟩ | ⟨t, c, _, _, _, h⟩ | ⟨t, c, _, _, _, C, _, h⟩ | ⟨t, _, _, _, h⟩ | ⟨t, _, _, _, hs, hB⟩
     · cases h
     · cases h
@@ -1663,7 +1751,7 @@ theorem gVariant (cfg : Cfg) (env : Env) (hF : deFragB cfg env = true) : ∀ {A 
       obtain ⟨fs, _, h⟩ := int_named_obj cfg env _ t _ _ _ hB
       cases h
   | _, _, .interObj _ _ _ _, it, var, hA, hmem, hvm, _, _, _ => by
-    obtain ⟨_, hiu, _, hvs, _, _, _, _, _⟩ := frag_item cfg env hF it hmem
+    obtain ⟨hiu, hvs, _, _⟩ := id hmem
     rcases variantTs_cases cfg env it var _ hA (hvs var hvm).1 hiu with ⟨_, _, h⟩ | ⟨_, _, C, _, h⟩ | ⟨t, c, _, _, _, h⟩ | ⟨t, c, _, _, _, C, _, h⟩ | ⟨t, _, _, _, h⟩ | ⟨t, _, _, _, hs, hB⟩
     · cases h
     · cases h
@@ -1674,7 +1762,7 @@ theorem gVariant (cfg : Cfg) (env : Env) (hF : deFragB cfg env = true) : ∀ {A 
       obtain ⟨fs, _, h⟩ := int_named_obj cfg env _ t _ _ _ hB
       cases h
   | _, _, .interOne _, it, var, hA, hmem, hvm, _, _, _ => by
-    obtain ⟨_, hiu, _, hvs, _, _, _, _, _⟩ := frag_item cfg env hF it hmem
+    obtain ⟨hiu, hvs, _, _⟩ := id hmem
     rcases variantTs_cases cfg env it var _ hA (hvs var hvm).1 hiu with ⟨_, _, h⟩ | ⟨_, _, C, _, h⟩ | ⟨t, c, _, _, _, h⟩ | ⟨t, c, _, _, _, C, _, h⟩ | ⟨t, _, _, _, h⟩ | ⟨t, _, _, _, hs, hB⟩
     · cases h
     · cases h
@@ -1685,7 +1773,7 @@ theorem gVariant (cfg : Cfg) (env : Env) (hF : deFragB cfg env = true) : ∀ {A 
       obtain ⟨fs, _, h⟩ := int_named_obj cfg env _ t _ _ _ hB
       cases h
   | _, _, .interVal _ _ _, it, var, hA, hmem, hvm, _, _, _ => by
-    obtain ⟨_, hiu, _, hvs, _, _, _, _, _⟩ := frag_item cfg env hF it hmem
+    obtain ⟨hiu, hvs, _, _⟩ := id hmem
     rcases variantTs_cases cfg env it var _ hA (hvs var hvm).1 hiu with ⟨_, _, h⟩ | ⟨_, _, C, _, h⟩ | ⟨t, c, _, _, _, h⟩ | ⟨t, c, _, _, _, C, _, h⟩ | ⟨t, _, _, _, h⟩ | ⟨t, _, _, _, hs, hB⟩
     · cases h
     · cases h
@@ -1696,7 +1784,7 @@ theorem gVariant (cfg : Cfg) (env : Env) (hF : deFragB cfg env = true) : ∀ {A 
       obtain ⟨fs, _, h⟩ := int_named_obj cfg env _ t _ _ _ hB
       cases h
   | _, _, .paren _, it, var, hA, hmem, hvm, _, _, _ => by
-    obtain ⟨_, hiu, _, hvs, _, _, _, _, _⟩ := frag_item cfg env hF it hmem
+    obtain ⟨hiu, hvs, _, _⟩ := id hmem
     rcases variantTs_cases cfg env it var _ hA (hvs var hvm).1 hiu with ⟨_, _, h⟩ | ⟨_, _, C, _, h⟩ | ⟨t, c, _, _, _, h⟩ | ⟨t, c, _, _, _, C, _, h⟩ | ⟨t, _, _, _, h⟩ | ⟨t, _, _, _, hs, hB⟩
     · cases h
     · cases h
@@ -1709,11 +1797,11 @@ theorem gVariant (cfg : Cfg) (env : Env) (hF : deFragB cfg env = true) : ∀ {A 
 /-- the content property of an adjacently tagged variant -/
 theorem gAdj2 (cfg : Cfg) (env : Env) (hF : deFragB cfg env = true) : ∀ {fsT : List (TsKey × Ts)} {kvs : List (Str × JVal)},
     MemberFields (declsOf cfg env) fsT kvs → ∀ (it : Item) (var : Variant) (ck : TsKey) (C : Ts), fsT = [(ck, C)] → ck.optional = false →
-      structBody cfg env (renameAllT it var) .no none var.shape var.fields = some C → it ∈ env → var ∈ it.variants → it.isEnum = true → wfJF kvs = true →
+      structBody cfg env (renameAllT it var) .no none var.shape var.fields = some C → ItemF cfg it → var ∈ it.variants → it.isEnum = true → wfJF kvs = true →
       (var.unitLike = false → ∃ v2, JVal.lookup ck.name kvs = some v2 ∧ Good (fun f => accVariantContent cfg env f it [] var (some v2)))
   | _, kvs, .present (k := k) (t := T) (v := v2) hl mC _, it, var, ck, C, he, _, hC, hmem, hvm, hen, hwf => by
     intro hu
-    obtain ⟨_, hiu, _, hvs, _, hvok, _, _, _⟩ := frag_item cfg env hF it hmem
+    obtain ⟨hiu, hvs, _, hvok⟩ := id hmem
     have hvty := (hvs var hvm).2
     obtain ⟨_, hra, hfok, _⟩ := variantOk_facts cfg it var (hvok hen var hvm) (hvs var hvm).1 hiu
     simp only [List.cons.injEq, Prod.mk.injEq] at he
@@ -1746,7 +1834,7 @@ theorem gAdj2 (cfg : Cfg) (env : Env) (hF : deFragB cfg env = true) : ∀ {fsT :
   | _, _, .nil, _, _, _, _, he, _, _, _, _, _, _ => by cases he
 /-- the union of an enum -/
 theorem gEnum (cfg : Cfg) (env : Env) (hF : deFragB cfg env = true) : ∀ {T : Ts} {j : JVal}, Member (declsOf cfg env) T j →
-    ∀ (it : Item) (arms : List Ts), T = .union arms → variantsTs cfg env it it.variants = some arms → it ∈ env → it.isEnum = true → wfJ j = true →
+    ∀ (it : Item) (arms : List Ts), T = .union arms → variantsTs cfg env it it.variants = some arms → ItemF cfg it → it.isEnum = true → wfJ j = true →
       Good (fun f => accEnum cfg env f it [] j)
   | _, _, .union (ts := ts) hmem' m', it, arms, hT, harms, hmem, hen, hw => by
     simp only [Ts.union.injEq] at hT
